@@ -146,9 +146,44 @@ def run_property(prop, rules, tier, seed, level_text, assumptions):
     # does not silence what the other rules decide: a violation found by a rule that completed stands (exit 1), and the check is
     # an analysis error (exit 2, no VIOLATION line) only when no completed rule reports anything
     errors = []
+    # a rule gets a time and memory budget: an analysis that does not come back (a fold that follows a loop of the code without
+    # bound, say) is an analysis error of that rule, never a check that hangs
+    import resource
+    import signal
+    budget = int(os.environ.get("VERIF_RULE_SECONDS") or (900 if tier == "quick" else 3600))
+    try:
+        soft, hard = resource.getrlimit(resource.RLIMIT_AS)
+        cap = int(os.environ.get("VERIF_RULE_GB") or 24) * 2 ** 30
+        if soft == resource.RLIM_INFINITY or soft > cap:
+            resource.setrlimit(resource.RLIMIT_AS, (cap, hard))
+    except (ValueError, OSError):
+        pass
+
+    class _Budget(Exception):
+        pass
+
+    def _alarm(_sig, _frm):
+        raise _Budget()
+    try:
+        signal.signal(signal.SIGALRM, _alarm)
+        can_alarm = True
+    except ValueError:
+        can_alarm = False
     for r in rules:
         try:
-            res = r(ctx)
+            if can_alarm:
+                signal.alarm(budget)
+            try:
+                res = r(ctx)
+            finally:
+                if can_alarm:
+                    signal.alarm(0)
+        except _Budget:
+            errors.append("rule %s did not finish within %d s: the analysis cannot follow this code" % (getattr(r, "__name__", "?"), budget))
+            continue
+        except MemoryError:
+            errors.append("rule %s exceeded its memory budget: the analysis cannot follow this code" % getattr(r, "__name__", "?"))
+            continue
         except AnalysisError as e:
             errors.append("%s" % e)
             continue
